@@ -180,7 +180,7 @@ def run_workers(ctx, module, func, payloads, backend="numpy", timeout=3600):
         with open(inp, "w") as f:
             json.dump(payload, f)
         env = dict(os.environ)
-        env.update({"PYTHONHASHSEED": str(hs), HOOK_GUARD: "1", "PYTHONPATH": "/repo:" + VERIF,
+        env.update({"PYTHONHASHSEED": str(hs), HOOK_GUARD: "1", "PYTHONPATH": os.environ.get("VERIF_REPO", "/repo") + ":" + VERIF,
                     "VERIF_BACKEND": backend, "OMP_NUM_THREADS": "1", "MKL_NUM_THREADS": "1",
                     "OPENBLAS_NUM_THREADS": "1", "PYTHONWARNINGS": "ignore"})
         p = subprocess.Popen([PY, "-m", "harness.worker", module, func, inp, out], cwd=VERIF, env=env,
